@@ -1,0 +1,65 @@
+// Package boundedbincode is the bincode deserializer of serde-generate's Go
+// runtime with one difference: a sequence, string or byte-array length that
+// exceeds the number of input bytes left is an error. Every element takes at
+// least one byte, so such a length can never be satisfied; the stock
+// deserializer allocates the declared length (up to 2^31-1 elements) before
+// it reads anything.
+package boundedbincode
+
+import (
+	"errors"
+	"fmt"
+	"math"
+
+	"github.com/novifinancial/serde-reflection/serde-generate/runtime/golang/bincode"
+	"github.com/novifinancial/serde-reflection/serde-generate/runtime/golang/serde"
+)
+
+type deserializer struct {
+	serde.BinaryDeserializer
+}
+
+func NewDeserializer(input []byte) serde.Deserializer {
+	return &deserializer{*serde.NewBinaryDeserializer(input, math.MaxUint64)}
+}
+
+func (d *deserializer) DeserializeF32() (float32, error) {
+	ret, err := d.DeserializeU32()
+	return math.Float32frombits(ret), err
+}
+
+func (d *deserializer) DeserializeF64() (float64, error) {
+	ret, err := d.DeserializeU64()
+	return math.Float64frombits(ret), err
+}
+
+func (d *deserializer) DeserializeBytes() ([]byte, error) {
+	return d.BinaryDeserializer.DeserializeBytes(d.DeserializeLen)
+}
+
+func (d *deserializer) DeserializeStr() (string, error) {
+	return d.BinaryDeserializer.DeserializeStr(d.DeserializeLen)
+}
+
+func (d *deserializer) DeserializeLen() (uint64, error) {
+	ret, err := d.DeserializeU64()
+	if err != nil {
+		return 0, err
+	}
+	if ret > bincode.MaxSequenceLength {
+		return 0, errors.New("length is too large")
+	}
+	if left := uint64(d.Buffer.Len()); ret > left {
+		return 0, fmt.Errorf("length %d exceeds the %d bytes left in the input", ret, left)
+	}
+	return ret, nil
+}
+
+func (d *deserializer) DeserializeVariantIndex() (uint32, error) {
+	return d.DeserializeU32()
+}
+
+func (d *deserializer) CheckThatKeySlicesAreIncreasing(key1, key2 serde.Slice) error {
+	// No need to check key ordering in Bincode.
+	return nil
+}
